@@ -46,6 +46,7 @@ from picosvg.svg_meta import (
 )
 from picosvg.svg_types import *
 from picosvg.svg_transform import Affine2D
+from picosvg import _verif
 import numbers
 
 _SHAPE_CLASSES = {
@@ -508,6 +509,8 @@ class SVG:
         while True:
             swaps = []
             use_els = list(self.xpath(".//svg:use", el=scope_el))
+            if _verif.ENABLED:
+                _verif.emit("use_round", n_use=len(use_els))
             if not use_els:
                 break
             for use_el in use_els:
@@ -577,6 +580,8 @@ class SVG:
     def _resolve_clip_path(
         self, clip_path_url, transform=Affine2D.identity()
     ) -> SVGPath:
+        if _verif.ENABLED:
+            _verif.emit("clip_enter", url=clip_path_url)
         clip_path_el = self.resolve_url(clip_path_url, "clipPath")
         self._resolve_use(clip_path_el)
 
@@ -616,6 +621,8 @@ class SVG:
             potential_id = template % i
             existing = self.xpath(f'//svg:*[@id="{potential_id}"]')
             if not existing:
+                if _verif.ENABLED:
+                    _verif.emit("new_id", template=template, id=potential_id)
                 return potential_id
         raise ValueError(f"No free id for {template}")
 
@@ -1245,6 +1252,8 @@ class SVG:
         # https://www.w3.org/TR/SVG/pservers.html#PaintServerTemplates
 
         assert _is_gradient(gradient)
+        if _verif.ENABLED:
+            _verif.emit("grad_enter", id=gradient.attrib.get("id", ""))
 
         href_attr = _xlink_href_attr_name()
         if href_attr not in gradient.attrib:
@@ -1442,6 +1451,8 @@ class SVG:
     def _update_etree(self):
         if not self.elements:
             return
+        if _verif.ENABLED:
+            _verif.emit("flush", n=len(self.elements))
         self._inherited_attrib.cache_clear()
         self._swap_elements(
             (
